@@ -455,6 +455,10 @@ func report(prop, tier string, seed int64, sel []Harness, results []JobResult, s
 				break
 			}
 			spurious++
+			if d := os.Getenv("ZX_KEEP_SPURIOUS"); d != "" {
+				data, _ := json.MarshalIndent(rf, "", " ")
+				os.WriteFile(filepath.Join(d, fmt.Sprintf("spurious-%s-%d.json", strings.ReplaceAll(h.ID, "/", "_"), spurious)), data, 0644)
+			}
 		}
 		if confirmed < 0 {
 			fmt.Printf("INCONCLUSIVE harness=%s: model did not reproduce on replay (counted as spurious): %s\n", h.ID, g.viols[0].Msg)
